@@ -5,6 +5,7 @@ import (
 	"sync"
 	"sync/atomic"
 	"syscall"
+	"time"
 	"unsafe"
 
 	"github.com/lesismal/nbio"
@@ -123,6 +124,9 @@ func (p *Policy) decide(n int) verdict {
 		b := atomic.LoadInt64(&p.Budget)
 		if b <= 0 {
 			atomic.AddInt64(&p.EAGAIN, 1)
+			// in LT/ONESHOT an armed write interest on a really writable socket fires again at
+			// once: without a pause the poller would burn a core for as long as the budget is 0
+			time.Sleep(30 * time.Microsecond)
 			return verdict{errno: syscall.EAGAIN, noEdge: true}
 		}
 		if int64(n) > b {
